@@ -136,6 +136,10 @@ impl Runner for SubprocessRunner {
                         OutputExitStatus::Unknown
                     }
                 } else if kind == ErrorKind::TimedOut {
+                    // the timed out process is still running: end it, so that it is
+                    // really aborted and cannot cause side effects later on
+                    let _ = process.kill();
+                    let _ = process.wait();
                     OutputExitStatus::Timeout(testcase.config.timeout.unwrap_or_default())
                 } else {
                     OutputExitStatus::Unknown
